@@ -3,6 +3,7 @@
   never the proofs. Line formats are described in harness/modprobe.cpp and NOTES-C18.md.
 -/
 import BlocV.Model.Mod.Csv
+import BlocV.Model.Mod.CsvPlugin
 import BlocV.Model.Mod.Utf8
 import BlocV.Spec.Csv
 import BlocV.Spec.Utf8
@@ -193,6 +194,138 @@ def u8Cmd (op : String) (args : List String) : String :=
     | none => "bad-op"
   | _, _ => "bad-op"
 
+/-! ### utf8: the plugin's method table on an object (`u8p`), run against the REAL plugin by vlib/props/c18f.py
+
+    u8p <memLimit> <U: hex | . | null> <V: hex | .> <op> <op> …
+        -> model=<res>,<count>,<rawsize>,<string hex>;…  [kf=<id>]      (a hazard token `H:<what>` ends the line)
+    ops: em ct rw rv:<n> cl ap:<n> al:<hex|.|null> cc:<s|o|null> st at:<i> rm:<a>:<b> in:<a>:<b> ic:<a>:<s|o|null> s1:<a> s2:<a>:<b>
+    (integers: decimal or `null`) -/
+
+def KF_RESERVE := "C18.utf8_reserve_unchecked"
+
+def parseWho (s : String) : Option (Option Utf8.Who) :=
+  if s = "null" then some none else if s = "s" then some (some .self) else if s = "o" then some (some .other) else none
+
+def parsePOp (tok : String) : Option Utf8.POp :=
+  match tok.splitOn ":" with
+  | ["em"] => some .empty
+  | ["ct"] => some .count
+  | ["rw"] => some .rawsize
+  | ["rv", n] => (parseInt n).map .reserve
+  | ["cl"] => some .clear
+  | ["ap", n] => (parseInt n).map .append
+  | ["al", h] => some (.appendL (if h = "null" then none else some (parseBytes h)))
+  | ["cc", w] => (parseWho w).map .concat
+  | ["st"] => some .string
+  | ["at", i] => (parseInt i).map .at
+  | ["rm", a, b] => match parseInt a, parseInt b with | some x, some y => some (.remove x y) | _, _ => none
+  | ["in", a, b] => match parseInt a, parseInt b with | some x, some y => some (.insert x y) | _, _ => none
+  | ["ic", a, w] => match parseInt a, parseWho w with | some x, some y => some (.insertC x y) | _, _ => none
+  | ["s1", a] => (parseInt a).map .substr1
+  | ["s2", a, b] => match parseInt a, parseInt b with | some x, some y => some (.substr2 x y) | _, _ => none
+  | _ => none
+
+def showPVal : Utf8.PVal → String
+  | .bool b => "B:" ++ b01 b
+  | .int n => "I:" ++ toString n
+  | .str b => "S:" ++ showBytes b
+  | .this => "T"
+  | .invalidArgs => "Ei"
+  | .indexRange => "Er"
+  | .hazardOob => "H:oob"
+  | .hazardOverrun => "H:overrun"
+  | .foreignLength => "H:length"
+  | .foreignAlloc => "H:alloc"
+
+def pStateStr (s : Utf8.UStr) : String :=
+  toString (Utf8.size s) ++ "," ++ toString s.rawSize ++ "," ++
+    (match Utf8.toStdString s with
+     | some b => showBytes b
+     | none => "H:overrun")
+
+def runP (memLimit : Nat) (v : Utf8.UStr) : Utf8.UStr → List Utf8.POp → List String → Option String → List String × Option String
+  | _, [], acc, kf => (acc, kf)
+  | u, op :: ops, acc, kf =>
+    let r := Utf8.pstep memLimit u v op
+    if r.2.isHazard then
+      let kf' := match r.2 with
+        | .foreignLength | .foreignAlloc => some KF_RESERVE
+        | _ => kf
+      (showPVal r.2 :: acc, kf')
+    else runP memLimit v r.1 ops ((showPVal r.2 ++ "," ++ pStateStr r.1) :: acc) kf
+
+def u8pCmd (mem uh vh : String) (toks : List String) : String :=
+  let u := if uh = "null" then ({} : Utf8.UStr) else Utf8.ofBytes (parseBytes uh)
+  let v := Utf8.ofBytes (parseBytes vh)
+  match toks.mapM parsePOp with
+  | none => "bad-op"
+  | some ops =>
+    let (acc, kf) := runP mem.toNat! v u ops [] none
+    "model=" ++ ";".intercalate acc.reverse ++ (match kf with | some k => " kf=" ++ k | none => "")
+
+/-! ### csv: the plugin glue (`csvp`), run against the REAL plugin by vlib/props/c18f.py
+
+    csvp <ctor> <table> <op> <op> …     ctor: d | f:<hex|.|null> | c:<int|null>:<int|null>
+                                         table (the variable T): null | - (empty) | elements joined by `,` (`.` = "", `~` = null)
+                                         ops: se | de:<hex|.|null> | dn:<hex|.|null> | ie | ep
+        -> model=<ok|E>;<res>|<table>;…  [kf=<id>]     (a failed constructor or a hazard token `H:<what>` ends the line) -/
+
+def KF_CSV_NULLELEM := "C18.csv_next_null_last_element"
+
+def parseBStr (s : String) : CsvPlugin.BStr := if s = "null" then none else some (parseBytes s)
+
+def parseTable (s : String) : Option CsvPlugin.BTable :=
+  if s = "null" then none else if s = "-" then some []
+  else some ((s.splitOn ",").map fun e => if e = "~" then none else some (parseBytes e))
+
+def showTable : Option CsvPlugin.BTable → String
+  | none => "null"
+  | some [] => "-"
+  | some t => ",".intercalate (t.map fun e => match e with | none => "~" | some b => showBytes b)
+
+def parseCtor (s : String) : Option CsvPlugin.Ctor :=
+  match s.splitOn ":" with
+  | ["d"] => some .default
+  | ["f", h] => some (.fmt (parseBStr h))
+  | ["c", a, b] => match parseInt a, parseInt b with | some x, some y => some (.codes x y) | _, _ => none
+  | _ => none
+
+def parseCsvOp (s : String) : Option CsvPlugin.Op :=
+  match s.splitOn ":" with
+  | ["se"] => some .serialize
+  | ["de", h] => some (.deserialize (parseBStr h))
+  | ["dn", h] => some (.deserializeNext (parseBStr h))
+  | ["ie"] => some .inError
+  | ["ep"] => some .errorPos
+  | _ => none
+
+def showCsvRes : CsvPlugin.Res → String
+  | .bool b => "B:" ++ b01 b
+  | .int n => "I:" ++ toString n
+  | .str none => "N"
+  | .str (some b) => "S:" ++ showBytes b
+  | .err => "E"
+  | .hazardNullElem => "H:nullelem"
+  | .hazardEmptyBack => "H:emptyback"
+
+def runCsvP : CsvPlugin.World → List CsvPlugin.Op → List String → Option String → List String × Option String
+  | _, [], acc, kf => (acc, kf)
+  | w, op :: ops, acc, kf =>
+    let r := CsvPlugin.step w op
+    if r.2.isHazard then
+      (showCsvRes r.2 :: acc, match r.2 with | .hazardNullElem => some KF_CSV_NULLELEM | _ => kf)
+    else runCsvP r.1 ops ((showCsvRes r.2 ++ "|" ++ showTable r.1.tbl) :: acc) kf
+
+def csvpCmd (ctor tbl : String) (toks : List String) : String :=
+  match parseCtor ctor, toks.mapM parseCsvOp with
+  | some c, some ops =>
+    match CsvPlugin.ctorCfg c with
+    | none => "model=E"
+    | some cfg =>
+      let (acc, kf) := runCsvP { cfg := cfg, tbl := parseTable tbl } ops [] none
+      "model=" ++ ";".intercalate ("ok" :: acc.reverse) ++ (match kf with | some k => " kf=" ++ k | none => "")
+  | _, _ => "bad-op"
+
 def handle (words : List String) : Option String :=
   match words with
   | "csv" :: s :: e :: op :: arg :: [] =>
@@ -200,6 +333,8 @@ def handle (words : List String) : Option String :=
     | [sep], [enc] => some (csvCmd ⟨sep, enc⟩ op arg)
     | _, _ => some "bad-op"
   | "u8" :: op :: args => some (u8Cmd op args)
+  | "u8p" :: mem :: uh :: vh :: toks => some (u8pCmd mem uh vh toks)
+  | "csvp" :: ctor :: tbl :: toks => some (csvpCmd ctor tbl toks)
   | _ => none
 
 end BlocV.DrvC18
